@@ -199,7 +199,7 @@ CHECKS = {
     "C02": {
         "text": ("Lean theorems (unbounded): the transcribed sameFile/compareStat is exactly equality of the property's identity tuple (sameFile_iff_identity); "
                  "diffing a listing against itself emits nothing (resync_is_silent); for valid listings the emitted add/modify/delete events applied to the old "
-                 "listing give the source listing, for both differs (diff_converges). Correspondence: doubleWalkDiff (through the verif export) vs the Lean diff "
+                 "listing give the source listing, for both differs (diff_converges); adds are exactly the new paths, modifies exactly the changed co-present ones, deletes only removed paths (adds_exactly_new, modifies_exactly_changed, deletes_only_removed); event paths are strictly ascending, so at most one event per path (at_most_one_event_per_path). Correspondence: doubleWalkDiff (through the verif export) vs the Lean diff "
                  "on generated listing pairs, and the executable reference spec (each changed path once, unchanged never, top-most deletes) applied to what the Go code emitted."),
         "note": ("Trusted: Lean kernel + standard axioms; model = code only on generated inputs. Listing level: that the receiver's destination walk and the "
                  "wire deliver those listings, inode preservation and content requests on disk are decided by the end-to-end suites (resync), not by a theorem."),
